@@ -23,6 +23,7 @@ type Case struct {
 	NamedSlices  bool
 	BoundsLayout int
 	NilMask      uint64
+	TokMask      uint64
 	RecoverLA    bool
 	PtrDiscard   bool
 	LoxText      string // filled in
@@ -67,7 +68,7 @@ func Run(cases []*Case, fast bool) ([]*Out, error) {
 	forge.FastLoader(fast)
 	for _, c := range cases {
 		c.LoxText = c.G.Lox()
-		c.GoText = pgo.UserGo(c.G, pgo.Opts{OnBounds: c.OnBounds, NamedSlices: c.NamedSlices, BoundsLayout: c.BoundsLayout, NilMask: c.NilMask, RecoverLA: c.RecoverLA, PtrDiscard: c.PtrDiscard})
+		c.GoText = pgo.UserGo(c.G, pgo.Opts{OnBounds: c.OnBounds, NamedSlices: c.NamedSlices, BoundsLayout: c.BoundsLayout, NilMask: c.NilMask, TokMask: c.TokMask, RecoverLA: c.RecoverLA, PtrDiscard: c.PtrDiscard})
 		files := c.G.LoxFiles()
 		files["user.go"] = c.GoText
 		if _, err := b.Add(files); err != nil {
